@@ -78,6 +78,18 @@ class FnItem(_Immutable):
         return 'FnItem(%s)' % self.name
 
 
+class PyFn(_Immutable):
+    """a user function implemented by the harness: fn(ex, st, [argument reference]) -> Result value"""
+    __slots__ = ('fn', 'tag')
+
+    def __init__(self, fn, tag):
+        self.fn = fn
+        self.tag = tag
+
+    def __repr__(self):
+        return 'PyFn(%s)' % self.tag
+
+
 class DiscrV(_Immutable):
     __slots__ = ('t',)
 
